@@ -32,7 +32,7 @@ use report::Report;
 use serde_json::Value;
 
 fn scenarios() -> Vec<(&'static str, &'static str)> {
-    vec![("c07.raw", "C07"), ("c08.values", "C08"), ("c09.seq", "C09"), ("c10.sched", "C10"), ("c14.timed", "C14"), ("c15.mix", "C15"), ("c19.opts", "C19"), ("c25.local", "C25"), ("ep.wake", "C20"), ("ep.seq", "C20"), ("stk.grow", "C23"), ("c22.arrival", "C22"), ("uring.own", "C27"), ("ppx.wait", "C02"), ("ppx.stop", "C12"), ("ppx.stopwait", "C12"), ("ppx.stop2", "C12"), ("ppx.rewait", "C02"), ("ppx.wait2", "C02"), ("ppx.migrate", "C11"), ("ppx.mon", "C22"), ("stk.fault", "C24"), ("ep.interest", "C21"), ("io.c16", "C16"), ("io.c17", "C17"), ("io.c18", "C18"), ("io.conn", "C18"), ("c28.helpers", "C28"), ("pool.c01", "C01"), ("loops.stop", "C01"), ("pool.c02", "C02"), ("pool.c05", "C05"), ("pool.c11", "C11"), ("pool.c12", "C12"), ("pool.c13", "C13")]
+    vec![("c07.raw", "C07"), ("c08.values", "C08"), ("c09.seq", "C09"), ("c10.sched", "C10"), ("c14.timed", "C14"), ("c15.mix", "C15"), ("c19.opts", "C19"), ("c25.local", "C25"), ("ep.wake", "C20"), ("ep.seq", "C20"), ("stk.grow", "C23"), ("c22.arrival", "C22"), ("uring.own", "C27"), ("ppx.wait", "C02"), ("ppx.stop", "C12"), ("ppx.stopwait", "C12"), ("ppx.stop2", "C12"), ("ppx.rewait", "C02"), ("ppx.wait2", "C02"), ("ppx.migrate", "C11"), ("ppx.schedmig", "C10"), ("ppx.mon", "C22"), ("stk.fault", "C24"), ("ep.interest", "C21"), ("io.c16", "C16"), ("io.c17", "C17"), ("io.c18", "C18"), ("io.conn", "C18"), ("c28.helpers", "C28"), ("pool.c01", "C01"), ("loops.stop", "C01"), ("pool.c02", "C02"), ("pool.c05", "C05"), ("pool.c11", "C11"), ("pool.c12", "C12"), ("pool.c13", "C13")]
 }
 
 fn run_scenario(name: &str, tier: &str, rep: &mut Report) -> bool {
